@@ -1,5 +1,6 @@
 """Monitor + oracle for IntervalSlicer.slice_ (C10; reused by C09)."""
 import copy
+import math
 
 import numpy as np
 
@@ -143,6 +144,22 @@ def judge(c, slicer, data, result, exc, tag="slice"):
         # outside the covered range: in no interval
         outside_in = (~inside) & (member > 0) & False  # (kept for the count) everything assigned is inside by construction
         V("outside-in-none", not np.any(outside_in), "observation outside the covered range assigned to an interval")
+
+    # (d2) the width slicer's intervals start at the lower limit of the value range and depend on the range only through
+    # its length: the same request shifted to start at 0 has the same number of intervals (judged where (hi-lo)/width is
+    # not within 1 % of an integer, so that float rounding of the count cannot matter)
+    if kind == "WidthOfIntervalSlicer" and n > 0 and slicer.value_range is not None and slicer.value_range[0] not in (None, 0):
+        lo_ = float(slicer.value_range[0])
+        hi_ = float(np.max(data)) if slicer.value_range[1] is None else float(slicer.value_range[1])
+        ratio = (hi_ - lo_) / float(slicer.width)
+        if hi_ > lo_ and 0.01 <= ratio - math.floor(ratio) <= 0.99:
+            sh = copy.copy(s0)
+            sh.value_range = (0, hi_ - lo_)
+            try:
+                _, _, bsh = sh.slice_(np.asarray(data, float) - lo_)
+                V("translation-invariant", len(bsh) == len(bounds0), "the number of intervals changes when value range and data are shifted together", witness={"value_range": [lo_, hi_], "intervals": len(bounds0), "shifted_to_zero": len(bsh)})
+            except Exception:  # noqa: BLE001
+                c.count(f"{tag}.translation-shifted-call-raised")
 
     # (e) include_max
     if kind == "NumberOfIntervalsSlicer" and slicer.include_max and n > 0 and slicer.value_range is None:
